@@ -72,3 +72,40 @@ Definition probing_image (t : atable) (uni_slots : nat) (buckets : list nat) : o
   | Some x => Some (uni_bytes t uni_slots ++ x)
   | None => None
   end.
+
+(* ---- HashedSearch<RestValue> (the `rest` model type with MaxRestBuild): weights {prob; backoff; rest}, 12 bytes; middle entries
+   {key; prob; backoff; rest} packed to 20 bytes.  A rest cost is a probability with the sign bit on (SetRest / MarkExtends copy it from
+   one); `unset` lists the unigrams whose rest cost ApplyBuild never sets (the last word id when the file has no <unk>): zero bytes. *)
+Definition rest_bits (unset : bool) (e : entry) : Z :=
+  if unset then 0 else Z.lor (Z.land (f32_of_units (e_rest e)) 2147483647) 2147483648.
+
+Definition rest_uni_bytes (t : atable) (slots : nat) (unset : list key) : list Z :=
+  flat_map (fun w => match alookup t [N.of_nat w] with
+                     | Some e => bytes_of_Z 4 (prob_bits e) ++ bytes_of_Z 4 (backoff_bits e) ++
+                                 bytes_of_Z 4 (rest_bits (existsb (key_eqb [N.of_nat w]) unset) e)
+                     | None => bytes_of_Z 4 2147483648 ++ bytes_of_Z 8 0
+                     end) (seq 0 slots).
+
+Definition rest_middle_bytes (t : atable) (n : nat) (buckets : nat) : option (list Z) :=
+  match table_cells buckets (map (fun ke => (hash_key (fst ke),
+                                             prob_bits (snd ke) + Z.shiftl (backoff_bits (snd ke)) 32 + Z.shiftl (rest_bits false (snd ke)) 64))
+                                 (order_entries t n)) with
+  | None => None
+  | Some c => Some (flat_map (fun kv => bytes_of_Z 8 (fst kv) ++ bytes_of_Z 12 (snd kv)) c)
+  end.
+
+Fixpoint rest_tables_bytes (t : atable) (n : nat) (buckets : list nat) : option (list Z) :=
+  match buckets with
+  | [] => Some []
+  | [b] => longest_bytes t n b
+  | b :: rest => match rest_middle_bytes t n b, rest_tables_bytes t (S n) rest with
+                 | Some x, Some y => Some (x ++ y)
+                 | _, _ => None
+                 end
+  end.
+
+Definition rest_probing_image (t : atable) (uni_slots : nat) (buckets : list nat) (unset : list key) : option (list Z) :=
+  match rest_tables_bytes t 2 buckets with
+  | Some x => Some (rest_uni_bytes t uni_slots unset ++ x)
+  | None => None
+  end.
